@@ -77,6 +77,7 @@ class Unit:
         self.inline = inline or {}       # class name -> ClassDef
         self.callees = callees or {}     # name -> (gen name, params, defaults)
         self.time_var = time_var
+        self.skip_names = set()
         self.defs = []
 
     # ------------------------------------------------------------ expressions
@@ -254,8 +255,10 @@ class Unit:
     def call(self, cx, env, node, k):
         fn = node.func
         fname = self.dotted(fn)
+        is_ctor = bool(fname) and fname.split(".")[-1][:1].isupper()
         if node.keywords and fname not in self.callees and \
-                fname not in self.inline and fname not in self.externs:
+                fname not in self.inline and fname not in self.externs \
+                and not is_ctor:
             raise Unsupported(node, "keywords")
         if fname in ("min", "max") and len(node.args) == 2:
             op = "pmin2" if fname == "min" else "pmax2"
@@ -311,8 +314,7 @@ class Unit:
                 cx, "%s %s%s" % (gen, " ".join(items), extra), k))
         if fname in self.externs and not isinstance(self.externs[fname], str):
             return self.externs[fname](self, cx, env, node, k)
-        if fname is not None and fname[:1].isupper() or \
-                (fname or "").split(".")[-1][:1].isupper():
+        if is_ctor:
             # opaque constructor: (class name, positional..., keywords...)
             nodes = list(node.args) + [w.value for w in node.keywords]
             return self.seq(cx, env, nodes, lambda items: k(
@@ -429,8 +431,16 @@ class Unit:
             if isinstance(st.value, ast.Call) and \
                     self.dotted(st.value.func) in self.inline and \
                     len(st.targets) == 1:
-                return after(self.construct(cx, env, st.targets[0],
-                                            st.value))
+                return self.construct(cx, env, st.targets[0], st.value,
+                                      after)
+            if len(st.targets) == 1 and \
+                    isinstance(st.targets[0], ast.Subscript):
+                sub = st.targets[0]
+                return self.effect(cx, env, sub.value, "set",
+                                   [sub.slice, st.value], after)
+            if len(st.targets) == 1 and \
+                    self.dotted(st.targets[0]) in self.skip_names:
+                return after(env)
 
             def bind_all(v):
                 name = cx.fresh(self.dotted(st.targets[0]) or "x")
@@ -455,6 +465,8 @@ class Unit:
                                       ast.walk(cx.fundef)):
                 return "Ok %s" % env["__out"]
             if st.value is None:
+                if cx.result is not None:
+                    return cx.result(env)
                 return "Ok PNone"
             return self.expr(cx, env, st.value, lambda a: "Ok %s" % a)
         if isinstance(st, ast.Raise):
@@ -539,7 +551,7 @@ class Unit:
                     fn.attr, call.args, after)
         raise Unsupported(call, "statement call")
 
-    def construct(self, cx, env, target, call):
+    def construct(self, cx, env, target, call, after):
         cname = self.dotted(call.func)
         cls = self.inline[cname]
         init = [n for n in cls.body if isinstance(n, ast.FunctionDef)
@@ -550,9 +562,7 @@ class Unit:
         actual = dict(zip(params, call.args))
         actual.update({w.arg: w.value for w in call.keywords})
         obj = self.dotted(target)
-        env = dict(env)
-        env["%s.__class__" % obj] = ":" + cname
-        pending = {}
+        fields, nodes = [], []
         for st in init.body:
             if not (isinstance(st, ast.Assign) and len(st.targets) == 1 and
                     isinstance(st.targets[0], ast.Attribute) and
@@ -562,11 +572,19 @@ class Unit:
             node = actual.get(par, defaults.get(par))
             if node is None:
                 raise Unsupported(call, "constructor argument %s" % par)
-            pending["%s.%s" % (obj, field)] = node
-        # constructor arguments must be atoms or simple expressions; they are
-        # evaluated by the caller through expr in order
-        self._pending = (pending, obj)
-        return env
+            fields.append("%s.%s" % (obj, field))
+            nodes.append(node)
+
+        def done(items):
+            env2 = dict(env)
+            env2["%s.__class__" % obj] = ":" + cname
+            code = ""
+            for field, item in zip(fields, items):
+                var = cx.fresh(field)
+                code += "let %s := %s in\n" % (var, item)
+                env2[field] = var
+            return code + after(env2)
+        return self.seq(cx, env, nodes, done)
 
     def for_loop(self, cx, env, st, after):
         if st.orelse:
@@ -581,11 +599,14 @@ class Unit:
         for n in tnames:
             if n in carried:
                 carried.remove(n)
-        free = [n for n in env if n not in carried]
+        free = [n for n in env if n not in carried
+                and not n.endswith(".__class__")]
         lname = "%s_loop_%d" % (cx.name, len(cx.loops) + 1)
         item, restv = cx.fresh("item"), cx.fresh("rest")
         params = {n: cx.fresh(n) for n in free + carried}
         inner = dict(params)
+        inner.update({n: v for n, v in env.items()
+                      if n.endswith(".__class__")})
 
         def again(e):
             return "%s %s %s" % (lname, restv, " ".join(
@@ -614,6 +635,7 @@ class Unit:
                  init_env=None, body=None, result=None):
         cx = Ctx(self, gen_name)
         cx.fundef = fundef
+        cx.result = result
         env = dict(init_env or {})
         for p in params:
             env[p] = mangle(p)
@@ -707,10 +729,57 @@ def gen_token():
                       "check_token", [("H", "list Z -> list Z")])
 
 
-TARGETS = {"token": gen_token}
+def find_if(fun, test_text):
+    for node in ast.walk(fun):
+        if isinstance(node, ast.If) and ast.unparse(node.test) == test_text:
+            return node
+    raise Unsupported(fun, "no `if %s`" % test_text)
 
 
-OUTPUT = {"token": "TokenGen.v"}
+def gen_range():
+    """response.py: make_partial, the range block of __start_response__,
+    GeneratorResponse.__range_generator__ -> gen/RangeGen.v"""
+    tree = parse("poorwsgi/response.py")
+    htree = parse("poorwsgi/headers.py")
+    crange = [n for n in htree.body if isinstance(n, ast.ClassDef)
+              and n.name == "ContentRange"][0]
+    unit = Unit(consts=state_consts(),
+                aliases={"self.content_length": "self._content_length",
+                         "self.ranges": "self._ranges",
+                         "self.status_code": "self.__status_code"},
+                inline={"ContentRange": crange})
+    unit.skip_names = {"stack_record"}
+    # make_partial
+    mp = find_function(tree, "make_partial", "BaseResponse")
+    unit.function(
+        mp, "gen_make_partial",
+        ["self.__status_code", "self.__headers", "self._ranges",
+         "self._units", "ranges", "units"],
+        result=lambda e: "Ok (PTuple [%s;%s;%s])" % (
+            e["self._units"], e["self.__headers"], e["self._ranges"]))
+    # the range block
+    sr = find_function(tree, "__start_response__", "BaseResponse")
+    blk = find_if(sr, "self._ranges and self._units == 'bytes'")
+    unit.function(
+        sr, "gen_range_block",
+        ["self._content_length", "self._ranges", "self.__headers",
+         "self._start", "self._end", "self.__status_code"],
+        body=blk.body,
+        result=lambda e: "Ok (PTuple [%s;%s;%s;%s;%s])" % (
+            e["self._start"], e["self._end"], e["self._content_length"],
+            e["self.__status_code"], e["self.__headers"]))
+    # the chunk generator
+    rg = find_function(tree, "__range_generator__", "GeneratorResponse")
+    unit.function(rg, "gen_range_generator",
+                  ["self.__generator", "self._start", "self._end"])
+    return unit.write("RangeGen.v", "poorwsgi/response.py make_partial, "
+                      "__start_response__ range block, __range_generator__")
+
+
+TARGETS = {"token": gen_token, "range": gen_range}
+
+
+OUTPUT = {"token": "TokenGen.v", "range": "RangeGen.v"}
 
 
 def regenerate(names=None):
